@@ -629,7 +629,9 @@ class TemplateNode(WikiNode):
             parameter_name: Union[str, int] = ""
             if len(parameter_list) == 0:
                 unnamed_parameter_index += 1
-                parameters[unnamed_parameter_index] = ""
+                # Empty value; kept as a list so that a later numbered
+                # parameter with the same index can still be appended
+                parameters[unnamed_parameter_index] = []
 
             for index, parameter in enumerate(parameter_list):
                 if index == 0:
@@ -682,6 +684,8 @@ class TemplateNode(WikiNode):
         for p_name, p_value in parameters.items():
             if isinstance(p_value, list) and len(p_value) == 1:
                 parameters[p_name] = p_value[0]
+            elif isinstance(p_value, list) and len(p_value) == 0:
+                parameters[p_name] = ""
 
         self._template_parameters = dict(parameters)
         return self._template_parameters
